@@ -21,8 +21,10 @@
   * `upoly_additive_generic`, `prime_/bin_/ext_upoly_additive` — univariate additivity.
   * `bpoly_additive_generic`, `prime_/bin_/ext_bpoly_additive` — bivariate additivity (in a
     quotient ring under the hypothesis `hsum`).
-  Still only stated (`C15.C15_full`, and `C15Full_remaining` below): the notational variations,
-  bivariate additivity in quotient rings without `hsum`.
+  * `upoly_notation_generic`, `prime_/bin_/ext_upoly_notation` — `UNotations`: univariate round
+    trip in every notation.
+  Still only stated (`C15.C15_full`, and `C15Full_remaining` below): the bivariate notational
+  variations, bivariate additivity in quotient rings without `hsum`.
 -/
 import Algobra.Props.C15
 import Algobra.Props.C03
@@ -32,6 +34,7 @@ import Algobra.Proofs.ParseRTBPoly
 import Algobra.Proofs.BPolyPerm
 import Algobra.Proofs.ParseRTAdd
 import Algobra.Proofs.ParseRTBAdd
+import Algobra.Proofs.ParseRTNPoly
 import Algobra.Proofs.ExtField
 
 namespace Algobra.C15
@@ -958,7 +961,188 @@ example : ∃ g, BPoly.parse { F := primeOps 7, ord := ⟨.lex, true⟩, varName
       [((0, 0), 5), ((1, 0), 1), ((0, 1), 2)] := by decide +kernel
   rwa [e1, e2] at h
 
-/-! ### 9. what remains of `C15_full` -/
+/-! ### 9. the notational freedoms (univariate)
+
+  `ParseRT.tokU_termN`: the tokeniser reads a term written with optional `*`, optional `^`, any
+  blanks around `+` and any letter case of the variable exactly as the default form. -/
+
+def swapc (c : Char) : Char := if c.isUpper then c.toLower else c.toUpper
+
+theorem swapCase_toList (s : String) : (swapCase s).toList = s.toList.map swapc := by
+  unfold swapCase; rw [String.toList_ofList]; rfl
+
+theorem swapc_facts {c : Char} (h : c.isAlphanum = true) :
+    Regex.lower (swapc c) = Regex.lower c ∧ (swapc c).isAlphanum = true ∧
+      (c.isAlpha = true → (swapc c).isAlpha = true) :=
+  alnum_forall (P := fun c => Regex.lower (swapc c) = Regex.lower c ∧ (swapc c).isAlphanum = true ∧
+    (c.isAlpha = true → (swapc c).isAlpha = true)) (by decide) h
+
+/-- the variable text of a notation -/
+def varN (N : Notation) (v : String) : String := if N.swapCase then swapCase v else v
+
+theorem varN_facts (N : Notation) {v : String} (hv : AdmissibleName v) :
+    (varN N v).toList.map Regex.lower = v.toList.map Regex.lower ∧ AdmissibleName (varN N v) := by
+  unfold varN
+  cases N.swapCase with
+  | false => exact ⟨rfl, hv⟩
+  | true =>
+    obtain ⟨c, t, h1, h2, h3⟩ := hv
+    have hall : ∀ x ∈ v.toList, x.isAlphanum = true := by
+      intro x hx; rw [h1] at hx
+      rcases List.mem_cons.1 hx with rfl | hx
+      · exact isAlpha_isAlphanum h2
+      · exact h3 x hx
+    simp only [if_true]
+    refine ⟨?_, swapc c, t.map swapc, by rw [swapCase_toList, h1]; rfl,
+      (swapc_facts (isAlpha_isAlphanum h2)).2.2 h2, ?_⟩
+    · rw [swapCase_toList, List.map_map]
+      apply List.map_congr_left
+      intro x hx
+      exact (swapc_facts (hall x hx)).1
+    · intro x hx
+      obtain ⟨y, hy, rfl⟩ := List.mem_map.1 hx
+      exact (swapc_facts (h3 y hy)).2.1
+
+theorem unconfusable_varN (N : Notation) {v w : String} (hv : AdmissibleName v)
+    (h : Unconfusable v w) : Unconfusable (varN N v) w := by
+  have e : UPoly.strLower (varN N v) = UPoly.strLower v := by
+    unfold UPoly.strLower; rw [(varN_facts N hv).1]
+  unfold Unconfusable at h ⊢
+  rw [e]; exact h
+
+/-- the printed form in a notation, as a joined list of terms -/
+theorem uToStrN_toList {α : Type} (N : Notation) {k l : Nat}
+    (hN : N.sep = String.ofList (List.replicate k ' ' ++ '+' :: List.replicate l ' '))
+    (F : FOps α) (hz1 : F.toStr F.zero = "0") (hz2 : ¬ F.nTerms F.zero > 1) (v : String)
+    (f : UPoly α) :
+    (uToStrN N F v f).toList = joinS (sepN k l)
+      ((termsOf F f).map fun t => termCharsN F (varN N v) N.caret N.star t.1 t.2) := by
+  unfold uToStrN termsOf
+  by_cases hz : UPoly.isZero F f = true
+  · simp only [hz, if_true, List.map_cons, List.map_nil, joinS]
+    simp [termCharsN, coefPart, coefText, starPart, varPartN, hz1, hz2]
+  · simp only [hz, Bool.false_eq_true, if_false]
+    rw [intercalate_toListS, hN, String.toList_ofList, List.map_map, List.map_map]
+    show joinS (sepN k l) _ = _
+    congr 1
+    apply List.map_congr_left
+    intro d _
+    simp only [Function.comp]
+    show (_ ++ _ ++ _ : String).toList = _
+    unfold termCharsN starPart coefPart coefText varPartN varN
+    rw [String.toList_append, String.toList_append, List.append_assoc]
+    congr 1
+    · split <;> simp
+    · congr 1
+      · by_cases h1 : (!F.isOne (UPoly.coef F f d) || d == 0) = true
+        · by_cases h2 : N.star = true <;> by_cases h3 : d = 0 <;>
+            by_cases h4 : F.nTerms (UPoly.coef F f d) > 1 <;> simp [h1, h2, h3, h4]
+          all_goals (split <;> rfl)
+        · by_cases h2 : N.star = true <;> by_cases h3 : d = 0 <;> simp [h1, h2, h3]
+      · by_cases h0 : d = 0
+        · simp [h0]
+        · by_cases h1 : d = 1
+          · simp [h1]
+          · have : d > 1 := by omega
+            cases N.caret <;> simp [h0, h1, this]
+
+/-- `UPolyRoundTrip` clause 1 for EVERY notation, over any lawful coefficient record with a
+    `CoefRT` coefficient syntax -/
+theorem upoly_notation_generic {α K : Type} [Field K] {F : FOps α} (L : Lawful F K)
+    (H : CoefRT F L.valid) (hz1 : F.toStr F.zero = "0") (hz2 : ¬ F.nTerms F.zero > 1)
+    (hown : ∀ w, F.ownVar = some w → AdmissibleName w)
+    {v : String} (hv : AdmissibleName v) (hun : ∀ w, F.ownVar = some w → Unconfusable v w)
+    (mod : Option (UPoly α)) {f : UPoly α} (hf : WF L f) (hlen : f.length ≤ 2 ^ 63)
+    (hred : reduceIn { F := F, varName := v, modulus := mod } f = some f)
+    (N : Notation) (hN : N.ok) :
+    UPoly.parse { F := F, varName := v, modulus := mod } (uToStrN N F v f) = .ok (some f) := by
+  obtain ⟨k, l, hsep⟩ := hN
+  obtain ⟨hl, x0', vt', hv'1, hv'2, _⟩ := varN_facts N hv
+  have hdir : UPoly.directOK F v = true := by
+    unfold UPoly.directOK
+    rw [(admissible_iff_simple v).1 hv, Bool.true_and]
+    cases hw : F.ownVar with
+    | none => rfl
+    | some w => exact (admissible_iff_simple w).1 (hown w hw)
+  exact upoly_parse_N L H hdir hl ⟨x0', vt', hv'1, hv'2⟩
+    (fun w X hw => strip_none_of_unconfusable (unconfusable_varN N hv (hun w hw)) X)
+    N.caret N.star k l mod hf hlen hred (uToStrN_toList N hsep F hz1 hz2 v f)
+
+/-- `UPolyRoundTrip` clause 1, every notation, over a prime field -/
+theorem prime_upoly_notation {p : Nat} (hp : p.Prime) (h32 : p - 1 < 2 ^ 32) {v : String}
+    (hv : AdmissibleName v) (mod : Option (UPoly Nat)) {f : UPoly Nat}
+    (hf : UValid (primeSpec p) { F := primeOps p, varName := v, modulus := mod } f)
+    (hlen : f.length ≤ 2 ^ 63) (N : Notation) (hN : N.ok) :
+    ∃ g, UPoly.parse { F := primeOps p, varName := v, modulus := mod }
+        (uToStrN N (primeOps p) v f) = .ok (some g) ∧ UPoly.equal (primeOps p) f g = true := by
+  have := Fact.mk hp
+  obtain ⟨hcanon, hlt, hred⟩ := hf
+  refine ⟨f, ?_, (equal_iff_eq (primeLawfulFact p h32) hlt hlt).2 rfl⟩
+  exact upoly_notation_generic (primeLawfulFact p h32) (prime_coefRT hp.two_le (by omega))
+    (by show toString (0 : Nat) = "0"; decide) (by show ¬ (1 > 1); omega)
+    (fun w hw => by cases hw) hv (fun w hw => by cases hw) mod ⟨hlt, hcanon⟩ hlen hred N hN
+
+/-- … over a binary field -/
+theorem bin_upoly_notation {K : Type} [Field K] {n m : Nat} {w : String}
+    (L : Lawful (binOps n m w) K) (hL : ∀ a, L.valid a ↔ a < 2 ^ n) (hw : AdmissibleName w)
+    (hn : n < 64) {v : String} (hv : AdmissibleName v) (hun : Unconfusable v w)
+    (mod : Option (UPoly Nat)) {f : UPoly Nat}
+    (hf : UValid (binSpec n m w) { F := binOps n m w, varName := v, modulus := mod } f)
+    (hlen : f.length ≤ 2 ^ 63) (N : Notation) (hN : N.ok) :
+    ∃ g, UPoly.parse { F := binOps n m w, varName := v, modulus := mod }
+        (uToStrN N (binOps n m w) v f) = .ok (some g) ∧
+      UPoly.equal (binOps n m w) f g = true := by
+  obtain ⟨hcanon, hval, hred⟩ := hf
+  have hwf : WF L f := ⟨fun c hc => (hL c).2 (hval c hc), hcanon⟩
+  have hown : ∀ w', (binOps n m w).ownVar = some w' → w' = w := by
+    intro w' h; injection h with e; exact e.symm
+  refine ⟨f, ?_, (equal_iff_eq L hwf.1 hwf.1).2 rfl⟩
+  exact upoly_notation_generic L ((bin_coefRT hw m hn).mono fun a ha => (hL a).1 ha) rfl
+    (by show ¬ popCount 0 > 1; rw [ParseRT.popCount_zero]; omega)
+    (fun w' h => by rw [hown w' h]; exact hw) hv (fun w' h => by rw [hown w' h]; exact hun)
+    mod hwf hlen hred N hN
+
+section ExtNot
+variable {p : Nat} [Fact p.Prime] {h32 : p - 1 < 2 ^ 32} {n : Nat} {g : List Nat}
+
+/-- … over an extension field -/
+theorem ext_upoly_notation {K : Type} [Field K] (M : ExtField.Modulus h32 n g) (hn : n ≤ 2 ^ 63)
+    (L : Lawful (extOps p n g) K) (hL : ∀ a, L.valid a ↔ ExtField.Valid h32 n a)
+    {v : String} (hv : AdmissibleName v) (hun : Unconfusable v "a")
+    (mod : Option (UPoly (UPoly Nat))) {f : UPoly (UPoly Nat)}
+    (hf : UValid (extSpec p n g) { F := extOps p n g, varName := v, modulus := mod } f)
+    (hlen : f.length ≤ 2 ^ 63) (N : Notation) (hN : N.ok) :
+    ∃ g', UPoly.parse { F := extOps p n g, varName := v, modulus := mod }
+        (uToStrN N (extOps p n g) v f) = .ok (some g') ∧
+      UPoly.equal (extOps p n g) f g' = true := by
+  obtain ⟨hcanon, hval, hred⟩ := hf
+  have hwf : WF L f :=
+    ⟨fun c hc => (hL c).2 (by have := hval c hc; exact ⟨⟨this.2.2, this.1⟩, this.2.1⟩), hcanon⟩
+  have hown : ∀ w', (extOps p n g).ownVar = some w' → w' = "a" := by
+    intro w' h; injection h with e; exact e.symm
+  refine ⟨f, ?_, (equal_iff_eq L hwf.1 hwf.1).2 rfl⟩
+  exact upoly_notation_generic L ((ext_coefRT M hn).mono fun a ha => (hL a).1 ha)
+    (by show UPoly.toStr (primeOps p) "a" [0] = "0"; rfl)
+    (by show ¬ UPoly.nTerms (primeOps p) [0] > 1; simp [UPoly.nTerms, UPoly.isZero, primeOps])
+    (fun w' h => by rw [hown w' h]; exact ⟨'a', [], by decide, by decide, by decide⟩) hv
+    (fun w' h => by rw [hown w' h]; exact hun) mod hwf hlen hred N hN
+
+end ExtNot
+
+-- non-vacuity: Singular style, `*`, no blanks, lower case: 3*x2+x+5 for 3X^2 + X + 5 in F_7[X]
+example : ∃ g, UPoly.parse { F := primeOps 7, varName := "X", modulus := none } "3*x2+x+5" =
+      .ok (some g) ∧ UPoly.equal (primeOps 7) [5, 1, 3] g = true := by
+  have h := prime_upoly_notation (p := 7) (by norm_num) (by norm_num) (v := "X")
+    ⟨'X', [], by decide, by decide, by decide⟩ none (f := [5, 1, 3])
+    ⟨⟨by simp, fun _ => by decide⟩, fun c hc => by
+        have : c < 7 := by simp at hc; omega
+        exact this, rfl⟩ (by decide)
+    { caret := false, star := true, sep := "+", swapCase := true } ⟨0, 0, by decide⟩
+  have e : uToStrN { caret := false, star := true, sep := "+", swapCase := true } (primeOps 7) "X"
+      [5, 1, 3] = "3*x2+x+5" := by decide +kernel
+  rwa [e] at h
+
+/-! ### 10. what remains of `C15_full` -/
 
 /-- `UPolyRoundTrip` of `Props/C15.lean` with the bound on the number of coefficients that the
     exponent reader (`strconv.ParseInt`) imposes: an exponent `≥ 2^63` is a range error, so without
@@ -1008,22 +1192,20 @@ def BAddQuot {α : Type} (S : FieldSpec α) : Prop :=
 
 /-- NOT PROVED. What is still only validated by the correspondence run.  Everything else of
     `C15_full` (with the bounds of `UPolyRoundTripB`) is proved for all three field families:
-    element round trips; clause 1 of `UPolyRoundTripB`/`BPolyRoundTrip` for `N = {}` (every
-    ring/quotient ring, order, ideal); univariate additivity; bivariate additivity without ideal
-    (`prime_/bin_/ext_bpoly_additive` with `ideal = none`).  Remaining:
-    * `UNotations`, `BNotations` for `N ≠ {}` (`*`, no `^`, blanks around `+`, letter case, `y`
-      before `x`);
+    element round trips; `UNotations` (clause 1 of `UPolyRoundTripB` for EVERY notation:
+    `prime_/bin_/ext_upoly_notation`); clause 1 of `BPolyRoundTrip` for `N = {}` (every order,
+    ideal); univariate additivity; bivariate additivity without ideal.  Remaining:
+    * `BNotations` for `N ≠ {}` (`*`, no `^`, blanks around `+`, letter case, `y` before `x`);
     * `BAddQuot`: bivariate additivity in a quotient ring is proved only under the extra hypothesis
       `hsum` of `*_bpoly_additive` (the model's reduction returns something `Equal` to
       `add f₁ f₂` when applied to it); deriving `hsum` from `BValid f₁`, `BValid f₂` needs an
       analysis of `quoRemLoop` on inputs without divisible exponent pairs, an admissible order, and
       a bound `f₁.length + f₂.length < BPoly.divFuel` for the model's division fuel. -/
 def C15Full_remaining : Prop :=
-  (∀ p, Define.prime p = .ok (.prime p) →
-    UNotations (primeSpec p) ∧ BNotations (primeSpec p) ∧ BAddQuot (primeSpec p)) ∧
+  (∀ p, Define.prime p = .ok (.prime p) → BNotations (primeSpec p) ∧ BAddQuot (primeSpec p)) ∧
   (∀ q n m v, Define.bin Gen.dbText q = .ok (.bin n m) → AdmissibleName v →
-    UNotations (binSpec n m v) ∧ BNotations (binSpec n m v) ∧ BAddQuot (binSpec n m v)) ∧
+    BNotations (binSpec n m v) ∧ BAddQuot (binSpec n m v)) ∧
   (∀ q p n g, Define.ext Gen.dbText q = .ok (.ext p n g) →
-    UNotations (extSpec p n g) ∧ BNotations (extSpec p n g) ∧ BAddQuot (extSpec p n g))
+    BNotations (extSpec p n g) ∧ BAddQuot (extSpec p n g))
 
 end Algobra.C15
